@@ -29,6 +29,16 @@ def scenario : Sexp → Option Sexp
     match codeB64ToB2 s with
     | .ok b => some (.list [outList (.ok b), outList (codeB2ToB64 b s.length)])
     | .error e => some (.list [outList (.error e)])
+  | .list [.atom "codeseq", .list ss] => do
+    -- a history of conversions in one process: the functions are pure, every call is answered on its own
+    let rs ← ss.mapM (fun x => match x with
+      | .list s => do
+        let s ← nats s
+        match codeB64ToB2 s with
+        | .ok b => some (.list [outList (.ok b), outList (codeB2ToB64 b s.length)])
+        | .error e => some (.list [outList (.error e)])
+      | _ => none)
+    some (.list rs)
   | .list [.atom "nab", .list b, l] => do
     let b ← nats b; let l ← nat? l
     some (.list [outList (nabSextets b l)])
@@ -36,6 +46,13 @@ def scenario : Sexp → Option Sexp
     let s ← nats s
     some (.list [outNat (b64ToInt s)])
   | _ => none
+
+/-- a history of arbitrary calls: each answered on its own (the functions are pure) -/
+def scenarioSeq : Sexp → Option Sexp
+  | .list [.atom "seq", .list cs] => do
+    let rs ← cs.mapM scenario
+    some (.list rs)
+  | r => scenario r
 
 def handle : Sexp → Sexp
   | .list [.atom "intToB64", n, l] => match nat? n, nat? l with
@@ -53,7 +70,7 @@ def handle : Sexp → Sexp
   | .list [.atom "nabSextets", .list b, l] => match nats b, nat? l with
     | some b, some l => outList (nabSextets b l)
     | _, _ => sym "bad-request"
-  | r => match scenario r with
+  | r => match scenarioSeq r with
     | some o => o
     | none => sym "bad-request"
 
